@@ -268,6 +268,19 @@ def py_lt_violation(case, pls):
     return None
 
 
+def py_min_violation(case, pls):
+    """Pure-Python rendering of min_okb: of the members of a Min that contain Choose leaves, none or all are placed."""
+    names = {p[0] for p in pls}
+    for t in nodes(case["tree"]):
+        if t[0] == "MIN":
+            ms = [k for k in t[2] if choose_ids(k)]
+            got = [bool(choose_ids(k) & names) for k in ms]
+            if any(got) and not all(got):
+                return {"min": t[1], "members placed": [k[1] for k, g in zip(ms, got) if g],
+                        "members not placed": [k[1] for k, g in zip(ms, got) if not g]}
+    return None
+
+
 def py_structure_violation(case, pls):
     """Pure-Python fallback of structure_okb."""
     avail = {p: q for p, q, a in case["pt"] if a}
@@ -751,13 +764,15 @@ def run_monitors(ctx, mon, model_ok, prefix="S-strl-"):
             break
 
     # one combined Gallina monitor per case (flags say which monitors apply to this input):
-    #   capacity_okb unless the input has the F13 signature, structure_okb always, lt_okb unless F14 signature
+    #   capacity_okb unless the input has the F13 signature, structure_okb always, lt_okb unless F14 signature,
+    #   min_okb for the not-modelled lowerings (positive utilities, no Scale; judged against the ORIGINAL tree)
     whats = {
         "capacity": "a satisfying assignment of the C++ model reads back as placements that over-subscribe a partition "
                     "[partition, time, usage, quantity]",
         "structure": "a placement read back from a satisfying assignment is not the exact image of a Choose leaf (name, "
                      "start, duration, amount, partitions), or two children of one Max are placed",
-        "lessthan": "a placement below the first child of a LessThan ends after a placement below its second child starts"}
+        "lessthan": "a placement below the first child of a LessThan ends after a placement below its second child starts",
+        "min": "some but not all members of a Min of the ORIGINAL tree are placed"}
 
     def py_checks(m):
         c, pls = m[0], m[3]
@@ -767,18 +782,21 @@ def run_monitors(ctx, mon, model_ok, prefix="S-strl-"):
         out.append(("structure", py_structure_violation(c, pls)))
         if not c["f14"]:
             out.append(("lessthan", py_lt_violation(c, pls)))
+        if c.get("minmon") and not c["f14"]:
+            out.append(("min", py_min_violation(c, pls)))
         return [(k, v) for k, v in out if v]
 
     name = prefix + "monitors"
     bad = None
     if model_ok:
         try:
-            texts = ["(%s, %s, %s, %s, %s, %s)" % (gbool(not m[0]["f13"]), gbool(not m[0]["f14"]), g_ptab(m[0]["pt"]),
-                                                   gz(m[0]["now"]), g_expr(m[0]["tree"]), g_placements(m[3])) for m in mon]
+            texts = ["(%s, %s, %s, %s, %s, %s, %s)" % (gbool(not m[0]["f13"]), gbool(not m[0]["f14"]),
+                                                       gbool(bool(m[0].get("minmon")) and not m[0]["f14"]), g_ptab(m[0]["pt"]),
+                                                       gz(m[0]["now"]), g_expr(m[0]["tree"]), g_placements(m[3])) for m in mon]
             bad = ctx.monitor_stream(
-                name, HEADER, "bool * bool * ptab * Z * expr * list placement",
-                "(fun x => match x with (fc, fl, pt, now, e, pls) => andb (andb (orb (negb fc) (capacity_okb pt e pls)) "
-                "(structure_okb pt now e pls)) (orb (negb fl) (lt_okb e pls)) end)", texts)
+                name, HEADER, "bool * bool * bool * ptab * Z * expr * list placement",
+                "(fun x => match x with (fc, fl, fm, pt, now, e, pls) => andb (andb (andb (orb (negb fc) (capacity_okb pt e pls)) "
+                "(structure_okb pt now e pls)) (orb (negb fl) (lt_okb e pls))) (orb (negb fm) (min_okb e pls)) end)", texts)
         except core.ModelEvalError as e:
             ctx.broken.append({"kind": "monitor", "name": name, "detail": str(e)[-600:]})
     if bad is None:     # the Coq model does not evaluate: the same checks in Python
@@ -1066,7 +1084,8 @@ class PassGen(Gen):
     """tiny fork/join trees on contended partitions."""
 
     def case(self, force=None):
-        """force: None | 'fork' | 'join' (a tree built around one tightening LessThan)"""
+        """force: None | 'fork' | 'join' (a tree built around one tightening LessThan) | 'xfork' | 'xjoin' | 'xroot'
+        (a Min member made entirely infeasible by an ordering)"""
         r = self.rng
         self.nid = 0
         npart = r.choice([1, 1, 2])
@@ -1078,7 +1097,7 @@ class PassGen(Gen):
         kids = []
         if force:
             self.did_tight = True
-            kids.append(self.tight(force == "join"))
+            kids.append(self.cutoff(force) if force.startswith("x") else self.tight(force == "join"))
             self.budget = r.choice([0, 0, 1])
         while self.budget > 0:
             kids.append(self.shape())
@@ -1166,10 +1185,61 @@ class PassGen(Gen):
         kids = [b, c] if r.random() < 0.5 else [c, b]
         return ["LT", self.fresh(), ["MIN", self.fresh(), kids], d]
 
+    def cutoff(self, kind):
+        """a Min with ONE member whose every option violates an ordering while a sibling keeps a feasible option:
+        'xfork'  LessThan(Max A, Min[X, C])   every option of X starts before A can end
+        'xjoin'  LessThan(Min[X, C], Max D)   every option of X ends after D can start (X a Max: no F15 forcing)
+        'xroot'  Min[LessThan(Max A, Max X), C]  the root Min of a task graph loses a whole chain
+        The expression then has utility 0 below that Min; a pass that drops X and keeps the Min changes the meaning."""
+        r = self.rng
+        parts = r.sample(self.pids, r.choice([1, len(self.pids)]))
+        dur = lambda: r.choice([1, 2, 2, 3])
+        if kind == "xjoin":
+            self.budget -= 1
+            c = ["C", self.fresh(), parts, 1, r.randrange(0, 2), dur(), r.choice([1, 2, 3])]
+            if r.random() < 0.4:
+                c = self.options(parts, 1, [c[4], c[4] + 1], c[5], [c[6], 1])
+            d0 = max(leaf_span(l)[0] + leaf_span(l)[1] for l in leaves(c)) + r.choice([0, 1])
+            d1 = d0 + r.choice([0, 1, 2])
+            d = self.options(parts, 1, sorted({d0, d1}), dur(), [3, 1])
+            dx = dur()
+            x0 = d1 - dx + 1                       # first start whose end lies beyond the latest start of D
+            xs = [max(0, x0) + i for i in range(r.choice([1, 2]))]
+            if xs[0] + dx <= d1:
+                xs = [d1 - dx + 1 + i for i in range(len(xs))]
+            x = self.options(parts, 1, xs, dx, [3, 2][:len(xs)])
+            kids = [x, c] if r.random() < 0.5 else [c, x]
+            return ["LT", self.fresh(), ["MIN", self.fresh(), kids], d]
+        a0, da = r.randrange(1, 4), r.choice([1, 2])
+        a = self.options(parts, 1, [a0, a0 + r.choice([1, 2])], da, [3, 1])
+        e = a0 + da                                 # no option of A ends before e
+        dx = dur()
+        xs = sorted({r.randrange(0, e) for _ in range(r.choice([1, 2]))})     # every start of X lies before e
+        if len(xs) == 1 and r.random() < 0.5:
+            self.budget -= 1
+            x = ["C", self.fresh(), parts, 1, xs[0], dx, r.choice([2, 3])]
+        else:
+            x = self.options(parts, 1, xs, dx, [3, 2][:len(xs)])
+        cs = e + r.choice([0, 1, 2])
+        if r.random() < 0.5:
+            self.budget -= 1
+            c = ["C", self.fresh(), parts, 1, cs, dur(), r.choice([1, 2, 3])]
+        else:
+            c = self.options(parts, 1, [cs, cs + 1], dur(), [3, 2])
+        if kind == "xroot":
+            if x[0] == "C":
+                x = ["MAX", self.fresh(), [x]]
+            return ["MIN", self.fresh(), [["LT", self.fresh(), a, x], c] if r.random() < 0.5 else
+                    [c, ["LT", self.fresh(), a, x]]]
+        kids = [x, c] if r.random() < 0.5 else [c, x]
+        return ["LT", self.fresh(), a, ["MIN", self.fresh(), kids]]
+
     def shape(self):
         x = self.rng.random()
         if self.budget >= 3 and x < 0.30 and not self.did_tight:
             self.did_tight = True
+            if self.rng.random() < 0.4:
+                return self.cutoff(self.rng.choice(["xfork", "xjoin", "xroot"]))
             return self.tight(x < 0.15)
         if x < 0.20:
             return self.unit()
@@ -1209,21 +1279,24 @@ def driver_text_cfg(c, assigns, ranges=None, passes=None, g=None):
 
 def run_passes_stage(ctx, exe, quick, model_ok, mon_out=None):
     rng = ctx.rng
-    n_trees = 26 if quick else 600
+    n_trees = 28 if quick else 600
     cap = 16 if quick else 300
     gen = PassGen(rng)
     ctx.rules.append(
         "S-strl-passes: %d tiny fork/join trees (Max-of-Choose at increasing start times, LessThan(Min(..),B), "
         "LessThan(A,Min(..)), Min(LessThan(..),C); a third of them built around a LessThan that TIGHTENS a Min whose children have different "
-        "durations - short child a Max over starts spanning the boundary, long child a Choose, fork and join orientation; 1-2 "
+        "durations - short child a Max over starts spanning the boundary, long child a Choose, fork and join orientation - or "
+        "around a Min with one member whose every option violates an ordering while a sibling stays feasible (fork, join, root "
+        "Min of a task graph); 1-2 "
         "partitions of quantity 1-2, all contended), each "
         "lowered by the real code under 9 configurations: unit discretisation without passes, with capacity-purge, "
         "critical-path, both; explicit time ranges (starts strictly inside ranges, usages crossing range ends) without and "
         "with purge; discretisation-selection pass; coarser static granularity without and with purge. ALL solutions of each "
         "model (<= %d, distinct on indicators+allocations) are read back and judged by the model-independent monitors; the "
         "model optimum is compared with the brute-force optimum of the expression" % (n_trees, cap))
-    n_tight = 10 if quick else 160
-    trees = [gen.case(force=("fork", "join")[i % 2]) for i in range(n_tight)] + [gen.case() for _ in range(n_trees - n_tight)]
+    n_tight = 14 if quick else 240
+    forced = ("fork", "join", "xfork", "xjoin", "xroot", "xfork", "xjoin")
+    trees = [gen.case(force=forced[i % len(forced)]) for i in range(n_tight)] + [gen.case() for _ in range(n_trees - n_tight)]
     jobs = []       # (tree index, config name, ranges, passes, g)
     for ti, c in enumerate(trees):
         rs = gen_ranges(rng, max(leaf_span(l)[0] for l in leaves(c["tree"])) + 1)
@@ -1317,6 +1390,7 @@ def run_passes_stage(ctx, exe, quick, model_ok, mon_out=None):
         c["f13"] = (ranges is None and name != "dd" and f13_signature(c))
         c["f14"] = flt_signature(c)
         c["cfg"] = {"name": name, "ranges": ranges, "passes": passes, "granularity": g}
+        c["minmon"] = True
         pcodes = [var_code(v[0]) for v in d["vars"]]
         for vals, s in zip(sols, o["sols"]):
             try:
@@ -1486,6 +1560,7 @@ def run_windowed_stage(ctx, exe, quick, model_ok, mon_out=None):
             continue
         x["f13"] = False
         x["f14"] = flt_signature(x)
+        x["minmon"] = True
         sols, _ = all_solutions(d, cap, ctx.seed)
         work.append((c, x, d, sols))
         if x["f14"] or f15_signature(x):
